@@ -313,11 +313,15 @@ func RunC06(rep *explore.Report, tier string) {
 	rep.Set("rule", "Start() on every option vector of a small valid/invalid grid; every reachable state of the play grid: wait point, expected step succeeds, street order, result iff closed, closed hand accepts nothing; the full transition graph of every configuration is checked acyclic with all maximal paths ending in GameClosed; distinct_nontrivial = distinct closed (terminal) states reached")
 	startGrid(rep)
 	v := &c06{}
-	RunGrid(rep, PlayGrid(tier), Visitors["C06"], GridOpts{Property: "C06", Edges: true, MaxState: 3000000, After: func(r *Run) {
+	after := func(r *Run) {
 		if r.bfs != nil && r.bfs.Capped == "" {
 			v.graphCheck(r)
 		}
-	}})
+	}
+	if RunScenes(rep, tier, Visitors["C06"], GridOpts{Property: "C06", Edges: true, After: after}) {
+		return
+	}
+	RunGrid(rep, PlayGrid(tier), Visitors["C06"], GridOpts{Property: "C06", Edges: true, MaxState: 3000000, After: after})
 	rep.Set("distinct_nontrivial", rep.Get("terminal_states"))
 	rep.Set("evaluations", rep.Get("transitions"))
 }
